@@ -69,6 +69,15 @@ func (c *Ctx) fn(name string) *ssa.Function { return c.P.Func(name) }
 
 // explore enumerates paths of fn; a path-cap overflow is a failed obligation.
 func (c *Ctx) explore(rule string, fn *ssa.Function, o core.Opts, cb func(*core.Path)) int {
+	// small unexported functions that did not exist when the rules were written are helpers
+	// extracted by a later refactoring: inline them so the rule sees the same events and literals
+	user := o.Inline
+	o.Inline = func(f *ssa.Function, depth int) bool {
+		if user != nil && user(f, depth) {
+			return true
+		}
+		return c.isNewHelper(f, depth)
+	}
 	x := core.NewExplorer(c.P)
 	n, err := x.Paths(fn, o, cb)
 	c.R.PathsSeen += n
@@ -94,4 +103,23 @@ func (c *Ctx) pureSet(names ...string) func(*ssa.Function) bool {
 		set[c.fn(n)] = true
 	}
 	return func(f *ssa.Function) bool { return set[f] }
+}
+
+// isNewHelper: an in-package, unexported, small function that is not in the
+// list of functions known when the rules were written.
+func (c *Ctx) isNewHelper(f *ssa.Function, depth int) bool {
+	if f == nil || !c.P.InPkg(f) || depth > 3 || len(f.Blocks) > 60 {
+		return false
+	}
+	if knownFuncs[core.FuncName(f)] {
+		return false
+	}
+	top := f
+	for top.Parent() != nil {
+		top = top.Parent()
+	}
+	if o := top.Object(); o != nil && o.Exported() {
+		return false
+	}
+	return true
 }
